@@ -79,6 +79,10 @@ Start(id) ==
                            g |-> Field("Int", EmptyDict)], << <<"f", "g">> >>),
          B |-> Model("B", [id |-> IdField,
                            f |-> FKField("A", EmptyDict)], <<>>)]
+    [] id = 4 ->          \* one model with a unique column and an indexed column
+        [A |-> Model("A", [id |-> IdField,
+                           f |-> Field("Char", D2("max_length", 10, "unique", TRUE)),
+                           g |-> Field("Int", D2("null", TRUE, "db_index", TRUE))], <<>>)]
     [] OTHER ->           \* one model only
         [A |-> Model("A", [id |-> IdField,
                            f |-> Field("Char", D1("max_length", 10)),
@@ -124,6 +128,22 @@ Alphabet ==
                  : m \in {"A", "B"}, t \in ModelNames }
         \cup { MDel(m, x) : m \in {"A", "B"}, x \in {"f", "h"} }
         \cup { MRenF(m, "h", "g") : m \in {"B"} }
+    [] AlphaId = 4 ->      \* unique / db_index toggles next to other changes on model A
+        UNION { { MChg("A", x, None, D1("unique", FALSE), None),
+                  MChg("A", x, None, D1("unique", TRUE), None),
+                  MChg("A", x, None, D1("db_index", FALSE), None),
+                  MChg("A", x, None, D1("db_index", TRUE), None),
+                  MChg("A", x, None, D1("null", TRUE), None),
+                  MChg("A", x, None, D1("max_length", 20), None),
+                  MAdd("A", x, "Int", D1("null", TRUE), None),
+                  MAdd("A", x, "Char", D2("max_length", 10, "unique", TRUE), "i"),
+                  MDel("A", x) } : x \in FieldNames }
+    [] AlphaId = 5 ->      \* field-name reuse on model A: renames, deletes, re-adds
+        UNION { { MChg("A", x, None, D1("max_length", 20), None),
+                  MChg("A", x, None, D1("null", TRUE), None),
+                  MAdd("A", x, "Int", D1("null", TRUE), None),
+                  MDel("A", x) } \cup { MRenF("A", x, y) : y \in FieldNames \ {x} }
+                : x \in FieldNames }
     [] OTHER -> { MSQL }
 
 ---------------------------------------------------------------------------
@@ -481,8 +501,10 @@ Plan(ms, sig, curModel, g, acc) ==
                      g1   == OpsFold(OpsOf(mu, sig), gs, tix)
                      stale == mu.k \in {"Meta", "Add", "Chg", "Del"}
                               /\ sig[mu.m].table \in acc.ren
+                     onto == mu.k = "RenF" /\ mu.nf \in DOMAIN sig[mu.m].fields
                      g2   == [g1 EXCEPT !.haz = @ \cup MutHazards(mu, sig)
-                                  \cup (IF stale THEN {"state-stale-after-rename"} ELSE {})]
+                                  \cup (IF stale THEN {"state-stale-after-rename"} ELSE {})
+                                  \cup (IF onto THEN {"rename-onto-existing-column"} ELSE {})]
                  IN Plan(Tail(ms), Sim(mu, sig).sig, mu.m, g2,
                          [acc EXCEPT !.counts = Bump(@, sig[mu.m].table, g2.cnt),
                                      !.ren = IF mu.k = "RenM" THEN @ \cup {mu.dbtable} ELSE @])
